@@ -40,11 +40,12 @@ Fixpoint mx_lines (bs : list bool) (nw n i cum : nat) : list dimline * nat :=
 
 Record mixdim := { mx_ls : list dimline; mx_size : nat; mx_max_rank1 : nat }.
 
-(* this dimension of RankSelectMixedIL256::new(bv0, bv1); other_size = the length of the other dimension *)
-Definition mx_build (bs : list bool) (other_size : nat) : mixdim :=
+(* this dimension of RankSelectMixedIL256::new(bv0, bv1); other_size = the length of the other dimension;
+   the block vector has ceil(len/64) + extra words, the extra ones all zero *)
+Definition mx_build (bs : list bool) (extra other_size : nat) : mixdim :=
   let size := length bs in
   let nlines := (Nat.max size other_size + 256 - 1) / 256 in
-  let '(ls, cum) := mx_lines bs (nwords size) nlines 0 0 in
+  let '(ls, cum) := mx_lines bs (nwords size + extra) nlines 0 0 in
   {| mx_ls := ls; mx_size := size; mx_max_rank1 := cum |}.
 
 Definition mx_dflt : dimline := {| dl_rlev1 := 0; dl_rlev2 := [0; 0; 0; 0]; dl_bit64 := [[]; []; []; []] |}.
